@@ -361,6 +361,11 @@ func ShouldRespond(w Watcher, id string, request *discovery.DiscoveryRequest) (b
 		log.Warnf("ADS:%s: ACK ERROR %s %s:%s", stype, id, errCode.String(), request.ErrorDetail.GetMessage())
 		IncrementXDSRejects(request.TypeUrl, w.GetID(), errCode.String())
 		w.UpdateWatchedResource(request.TypeUrl, func(wr *WatchedResource) *WatchedResource {
+			if wr == nil {
+				// A rejection for a type we hold no subscription for: the first message of the type on
+				// this stream, or the client unsubscribed while the rejected response was in flight.
+				return nil
+			}
 			wr.LastError = request.ErrorDetail.GetMessage()
 			return wr
 		})
